@@ -1,7 +1,7 @@
 """C12 - the token tree is well-formed and its generic views are faithful (E1 inputs + invariant checker)."""
 import json
 import itertools
-from mc import core, configs, spaces, trees
+from mc import core, configs, spaces, trees, inlines
 
 ID = 'C12'
 TECHNIQUE = ('exhaustive enumeration of texts over the line alphabet, of inline words placed in four block contexts and of '
@@ -46,6 +46,7 @@ def jobs(tier):
     for n in range(1, nt + 1):
         ns = 1 if n < 3 else (16 if n == 3 else 128)
         js += [('trees', n, 2 if tier == 'quick' else 3, sh, ns) for sh in range(ns)]
+    js += [('inlines', ci, tier) for ci in range(len(inlines.CONTAINERS))]
     return js
 
 
@@ -259,6 +260,16 @@ def run_job(job):
             if i % ns == sh:
                 run_text(r, trees.to_markdown(blocks, trees.DEFAULTS)[0])
         r.sample(dict(space='generated trees', nodes=n), 1)
+    elif kind == 'inlines':
+        # nested inline structure: every container of the inline menu around 1-2 leaves (thorough: also depth 2)
+        fams = ['depth1-single'] + (['depth2'] if job[2] == 'thorough' else [])
+        for fam in fams:
+            for node, key in inlines.enumerate_family(fam, job[1]):
+                for cx in (0, 3):
+                    ctx = inlines.in_context(cx, node)
+                    if ctx is not None:
+                        run_text(r, ctx[0])
+        r.sample(dict(space='inline menu', container=inlines.CONTAINERS[job[1]][0]), 1)
     elif kind == 'edit':
         from checks import c02
         for ex in c02.corpus()[job[1]:job[2]]:
